@@ -1,26 +1,175 @@
-//! Scripted child.  Behaviour is selected by the environment variable STUB_MODE so that the
-//! argument vector stays entirely under the control of the scenario.
+//! Scripted child for the engines.
 //!
-//!   argvcat : copy stdin to stdout, then print one line "argv <argv encoded as bytes>"
+//! STUB_MODE=argvcat (engine E3/C19): copy stdin to stdout, then print "argv <argv as bytes>".
+//! Otherwise (engine E2): write a self-report to <workdir>/rep.<pid> and run the behaviour script of the
+//! scenario.  The work directory is found through /verif/.build/e2/byppid/<ppid> (a symlink made by
+//! the orchestrator), so that neither argv nor the environment -- which the scenarios control
+//! completely -- is needed to configure the stub.
+//!
+//! behaviour script (<workdir>/cfg.<ppid>, one op per line; lines `@<tag> op` apply only to a stub whose
+//! argv[1] is <tag>):
+//!   sleep <ms> | readeof | cat | tagcat <text> | write <fd> <n> | writeforever <fd> | close <fd>
+//!   exit <code> | raise <sig> | hold
 use spharness::*;
 use std::io::{self, Read, Write};
 use std::os::unix::ffi::OsStrExt;
+use std::time::Instant;
+
+fn hexenc(b: &[u8]) -> String {
+    if b.is_empty() {
+        return "-".into();
+    }
+    b.iter().map(|c| format!("{:02x}", c)).collect()
+}
 
 fn main() {
     let mode = std::env::var("STUB_MODE").unwrap_or_default();
-    match mode.as_str() {
-        "argvcat" => {
-            let mut buf = Vec::new();
-            io::stdin().read_to_end(&mut buf).ok();
-            let out = io::stdout();
-            let mut out = out.lock();
-            out.write_all(&buf).unwrap();
-            let args: Vec<String> = std::env::args_os().map(|a| enc_bytes(a.as_bytes())).collect();
-            writeln!(out, "argv {}", args.join(",")).unwrap();
+    if mode == "argvcat" {
+        let mut buf = Vec::new();
+        io::stdin().read_to_end(&mut buf).ok();
+        let out = io::stdout();
+        let mut out = out.lock();
+        out.write_all(&buf).unwrap();
+        let args: Vec<String> = std::env::args_os().map(|a| enc_bytes(a.as_bytes())).collect();
+        writeln!(out, "argv {}", args.join(",")).unwrap();
+        return;
+    }
+    let t0 = Instant::now();
+    let pid = std::process::id();
+    let ppid = unsafe { libc::getppid() };
+    let wd = std::fs::read_link(format!("/verif/.build/e2/byppid/{}", ppid))
+        .map(|p| p.to_string_lossy().into_owned())
+        .or_else(|_| std::env::var("STUB_DIR"))
+        .unwrap_or_else(|_| "/verif/.build/e2/orphans".to_string());
+    let mut rep = String::new();
+    let args: Vec<Vec<u8>> = std::env::args_os().map(|a| a.as_bytes().to_vec()).collect();
+    rep.push_str(&format!("argv {}\n", args.iter().map(|a| hexenc(a)).collect::<Vec<_>>().join(",")));
+    let envs: Vec<String> = std::env::vars_os()
+        .map(|(k, v)| {
+            let mut kv = k.as_bytes().to_vec();
+            kv.push(b'=');
+            kv.extend_from_slice(v.as_bytes());
+            hexenc(&kv)
+        })
+        .collect();
+    rep.push_str(&format!("env {}\n", if envs.is_empty() { "empty".to_string() } else { envs.join(",") }));
+    rep.push_str(&format!(
+        "cwd {}\n",
+        std::env::current_dir().map(|p| hexenc(p.as_os_str().as_bytes())).unwrap_or("?".into())
+    ));
+    unsafe {
+        let (mut r, mut e, mut s) = (0u32, 0u32, 0u32);
+        libc::getresuid(&mut r, &mut e, &mut s);
+        let (mut rg, mut eg, mut sg) = (0u32, 0u32, 0u32);
+        libc::getresgid(&mut rg, &mut eg, &mut sg);
+        rep.push_str(&format!(
+            "ids ruid={} euid={} suid={} rgid={} egid={} sgid={} pgid={} pid={} ppid={}\n",
+            r, e, s, rg, eg, sg, libc::getpgrp(), pid, ppid
+        ));
+    }
+    if let Ok(st) = std::fs::read_to_string("/proc/self/status") {
+        let g = |k: &str| st.lines().find(|l| l.starts_with(k)).map(|l| l[k.len()..].trim().to_string()).unwrap_or_default();
+        rep.push_str(&format!("sig blk={} ign={} cgt={}\n", g("SigBlk:"), g("SigIgn:"), g("SigCgt:")));
+    }
+    let mut fds: Vec<i32> = std::fs::read_dir("/proc/self/fd")
+        .unwrap()
+        .filter_map(|e| e.ok())
+        .filter_map(|e| e.file_name().to_str().and_then(|s| s.parse().ok()))
+        .collect();
+    fds.sort();
+    for fd in fds {
+        if let Ok(t) = std::fs::read_link(format!("/proc/self/fd/{}", fd)) {
+            let t = t.to_string_lossy().into_owned();
+            if t.contains("/proc/") && t.ends_with("/fd") {
+                continue;
+            }
+            let fl = unsafe { libc::fcntl(fd, libc::F_GETFD) };
+            let mut st: libc::stat = unsafe { std::mem::zeroed() };
+            unsafe { libc::fstat(fd, &mut st) };
+            let acc = unsafe { libc::fcntl(fd, libc::F_GETFL) } & libc::O_ACCMODE;
+            rep.push_str(&format!("fd {} {} cloexec={} ino={}:{} acc={}\n", fd, hexenc(t.as_bytes()), fl & 1, st.st_dev, st.st_ino, acc));
         }
-        _ => {
-            eprintln!("childstub: unknown STUB_MODE {:?}", mode);
-            std::process::exit(99);
+    }
+    let rep_path = format!("{}/rep.{}", wd, pid);
+    std::fs::write(&rep_path, &rep).ok();
+    let mut more = String::new();
+    let tag = args.get(1).map(|a| String::from_utf8_lossy(a).into_owned()).unwrap_or_default();
+    let cfg = std::fs::read_to_string(format!("{}/cfg.{}", wd, ppid)).unwrap_or_default();
+    for line in cfg.lines() {
+        let mut line = line.trim();
+        if line.is_empty() {
+            continue;
+        }
+        if let Some(rest) = line.strip_prefix('@') {
+            let (t, op) = rest.split_once(' ').unwrap_or((rest, ""));
+            if t != tag {
+                continue;
+            }
+            line = op;
+        }
+        let p: Vec<&str> = line.split(' ').collect();
+        match p[0] {
+            "sleep" => std::thread::sleep(std::time::Duration::from_millis(p[1].parse().unwrap())),
+            "readeof" => {
+                let mut n = 0usize;
+                let mut buf = [0u8; 65536];
+                loop {
+                    match io::stdin().read(&mut buf) {
+                        Ok(0) | Err(_) => break,
+                        Ok(k) => n += k,
+                    }
+                }
+                more.push_str(&format!("stdin_eof bytes={} at_ms={}\n", n, t0.elapsed().as_millis()));
+                std::fs::write(&rep_path, format!("{}{}", rep, more)).ok();
+            }
+            "cat" | "tagcat" => {
+                let mut data = Vec::new();
+                io::stdin().read_to_end(&mut data).ok();
+                let out = io::stdout();
+                let mut out = out.lock();
+                if p[0] == "tagcat" {
+                    out.write_all(p[1].as_bytes()).ok();
+                }
+                out.write_all(&data).ok();
+                out.flush().ok();
+                more.push_str(&format!("stdin_eof bytes={} at_ms={}\n", data.len(), t0.elapsed().as_millis()));
+                std::fs::write(&rep_path, format!("{}{}", rep, more)).ok();
+            }
+            "write" => {
+                let fd: i32 = p[1].parse().unwrap();
+                let n: usize = p[2].parse().unwrap();
+                let chunk = vec![b'a' + (fd as u8 % 20); n.min(65536)];
+                let mut left = n;
+                while left > 0 {
+                    let k = left.min(chunk.len());
+                    let r = unsafe { libc::write(fd, chunk.as_ptr() as _, k) };
+                    if r <= 0 {
+                        more.push_str(&format!("write_failed fd={} errno={}\n", fd, io::Error::last_os_error().raw_os_error().unwrap_or(0)));
+                        std::fs::write(&rep_path, format!("{}{}", rep, more)).ok();
+                        break;
+                    }
+                    left -= r as usize;
+                }
+            }
+            "writeforever" => {
+                let fd: i32 = p[1].parse().unwrap();
+                let chunk = [b'y'; 4096];
+                loop {
+                    let r = unsafe { libc::write(fd, chunk.as_ptr() as _, chunk.len()) };
+                    if r <= 0 {
+                        break;
+                    }
+                }
+            }
+            "close" => {
+                unsafe { libc::close(p[1].parse().unwrap()) };
+            }
+            "exit" => std::process::exit(p[1].parse().unwrap()),
+            "raise" => unsafe {
+                libc::raise(p[1].parse().unwrap());
+            },
+            "hold" => std::thread::sleep(std::time::Duration::from_secs(3600)),
+            _ => {}
         }
     }
 }
